@@ -32,6 +32,8 @@ func checkC12(r *Report, p *Program) {
 	locksReleased(r, p, "R12.12", 10)
 	oneWritePerChild(r, p, "R12.13")
 	resultKeptOnSuccess(r, p, "R12.14", 1)
+	siblingStepsIndependent(r, p, "R12.15")
+	retriesReallyRetry(r, p, "R12.16", 2)
 }
 
 func allowedFor(s engine.Sink, under map[*ssa.Function]bool, releasers map[*ssa.Function]bool) []string {
@@ -749,4 +751,48 @@ func goBodiesOf(p *Program, key string) map[*ssa.Function]bool {
 	}
 	goBodiesCache[key] = m
 	return m
+}
+
+// siblingStepsIndependent: in ManageChildren the create/update step of a kind does not depend on the outcome of the
+// delete step: where both calls sit in one loop iteration, the update is still reached after a failed delete.
+func siblingStepsIndependent(r *Report, p *Program, rule string) {
+	r.Rule(rule, "ManageChildren: a failed deleteChildren does not keep updateChildren from running in the same iteration (\"we don't block recovery on a failed delete\")")
+	r.Floor(rule, 1)
+	f := fn(r, p, rule, "controller/common.ManageChildren")
+	if f == nil {
+		return
+	}
+	loops := engine.RangeLoops(f)
+	dels := callsTo(f, false, "controller/common.deleteChildren")
+	upds := callsTo(f, false, "controller/common.updateChildren")
+	ok, why := len(dels) > 0 && len(upds) > 0, "ManageChildren no longer calls deleteChildren and updateChildren"
+	for _, d := range dels {
+		di := d.Instr.(ssa.Instruction)
+		ld := engine.EnclosingLoop(loops, di)
+		ev := engine.ErrValue(d.Instr)
+		for _, u := range upds {
+			ui := u.Instr.(ssa.Instruction)
+			if ld == nil || !ld.Contains(ui) {
+				continue // separate passes: independent by construction
+			}
+			var from []engine.Point
+			for _, b := range f.Blocks {
+				for i := range b.Succs {
+					if l, has := engine.EdgeLit(b, i); has {
+						if x, isNil, isT := l.NilTest(); isT && !isNil && ev != nil && engine.SameValue(x, ev) {
+							from = append(from, engine.Point{B: b.Succs[i]})
+						}
+					}
+				}
+			}
+			if len(from) == 0 {
+				continue
+			}
+			if (engine.Query{Fn: f, From: from, Target: func(x ssa.Instruction) bool { return x == ui },
+				CutInstr: func(x ssa.Instruction) bool { return x.Block() == ld.Header }}).Find() == nil {
+				ok, why = false, "after a failed delete of one child the create/update step of that kind ("+p.InstrPos(ui)+") is skipped in this sync: a delete that keeps failing blocks the creation of every sibling"
+			}
+		}
+	}
+	r.Check(rule, FK(f), p.Pos(f.Pos()), ok, "update step independent of the delete step's outcome", why)
 }
